@@ -400,17 +400,90 @@ def translate(repo=None):
     return True, "; ".join(summary)
 
 
+GEN_POLL = C.LEAN / "Nstd" / "Generated" / "SyncSemPoll.lean"
+_CTOK = re.compile(r"[A-Za-z_]\w*|\d+[uUlL]*|==|!=|\+=|-=|<=|>=|&&|\|\||->|\+\+|--|::|[^\s\w]")
+
+
+def _norm(text):
+    """the C tokens of `text` joined by single blanks (formatting does not matter)"""
+    return " ".join(_CTOK.findall(text))
+
+
+def _const_int(text):
+    """value of a constant integer expression made of literals, + - * and parentheses; anything else is refused"""
+    t = text.replace(" ", "")
+    if not t or not re.fullmatch(r"[0-9+*()\-]+", t) or "**" in t:
+        raise TransErr("not a constant integer expression: " + text)
+    try:
+        v = eval(t, {"__builtins__": {}}, {})
+    except Exception:
+        raise TransErr("not a constant integer expression: " + text)
+    if not isinstance(v, int) or v < 0 or v >= 2 ** 31:
+        raise TransErr("constant out of the range of int: " + text)
+    return v
+
+
+def translate_sem_poll_shape(repo):
+    """Semaphore::wait(int64 timeout), POSIX branch, after the deadline arithmetic: the text must be EXACTLY (up to formatting,
+    comments and the names of the loop variable / label)
+
+        for(;;) { if(sem_timedwait((sem_t*)data, &ts) == -1) { if(errno == EINTR) continue; if(errno == ENOSYS) goto L; return false; } return true; }
+        L: for(int I = A; I < timeout; I += B) { if(sem_trywait((sem_t*)data) != -1) return true; usleep(C); } return false;
+
+    which is what `Sem.step` (Model.lean) transcribes at the program points `twait`, `pollTry`, `pollSleep`; the constants A, B
+    (milliseconds) and C (microseconds, a constant expression) are returned.  Anything else is refused."""
+    src = _strip_comments((Path(repo) / "src/Semaphore.cpp").read_text())
+    param, body = _function_body(src, "Semaphore")
+    body = _posix_branch(body)
+    m = re.search(r"\bfor\s*\(", body)
+    if not m:
+        raise TransErr("Semaphore::wait(int64): retry loop around sem_timedwait not found")
+    text = _norm(body[m.start():])
+    P = re.escape(param)
+    shape = (r"for \( ; ; \) \{ if \( sem_timedwait \( \( sem_t \* \) data , & ts \) == - 1 \) \{ "
+             r"if \( errno == EINTR \) continue ; if \( errno == ENOSYS \) goto (?P<L>\w+) ; return false ; \} return true ; \} "
+             r"(?P=L) : for \( int (?P<I>\w+) = (?P<A>[^;]+?) ; (?P=I) < " + P + r" ; (?P=I) \+= (?P<B>[^)]+?) \) \{ "
+             r"if \( sem_trywait \( \( sem_t \* \) data \) != - 1 \) return true ; usleep \( (?P<C>[^;]+) \) ; \} return false ;")
+    mm = re.fullmatch(shape, text)
+    if not mm:
+        raise TransErr("Semaphore::wait(int64): the loop around sem_timedwait / the ENOSYS polling loop is not of the transcribed form: " + text[:160])
+    if mm.group("I") in (param, "ts", "data", "errno"):
+        raise TransErr("Semaphore::wait(int64): loop variable shadows " + mm.group("I"))
+    return _const_int(mm.group("A")), _const_int(mm.group("B")), _const_int(mm.group("C")), text
+
+
+def translate_poll(repo=None):
+    try:
+        a, b, c, text = translate_sem_poll_shape(repo or C.REPO)
+    except (OSError, TransErr) as e:
+        return False, str(e)
+    out = ("/- generated by tools/areas/sync.py (translate_poll) from src/Semaphore.cpp - do not edit -/\n"
+           "namespace Nstd.Generated.SyncSemPoll\n\n"
+           "/-- `Semaphore::wait(int64 timeout)` after the deadline arithmetic (shape checked by the translator, constants extracted):\n"
+           f"    `{text}` -/\n"
+           f"def start : Nat := {a}\n\n"
+           "/-- the loop increment: milliseconds accounted per iteration -/\n"
+           f"def stepMs : Nat := {b}\n\n"
+           "/-- the argument of `usleep`: microseconds slept per iteration -/\n"
+           f"def sleepUs : Nat := {c}\n\n"
+           "end Nstd.Generated.SyncSemPoll\n")
+    GEN_POLL.parent.mkdir(parents=True, exist_ok=True)
+    if not GEN_POLL.exists() or GEN_POLL.read_text() != out:
+        GEN_POLL.write_text(out)
+    return True, f"Semaphore::wait(timeout) ENOSYS fallback: i = {a}; i < timeout; i += {b} ms, usleep({c} us)"
+
+
 def gen(ctx):
-    ok, msg = translate()
-    ok2, msg2 = translate_order()
+    parts = [("deadline arithmetic of the timed waits -> Nstd/Generated/SyncDeadline.lean: ", translate()),
+             ("order of Monitor::set -> Nstd/Generated/SyncMonitorOrder.lean: ", translate_order()),
+             ("shape and constants of the sem_timedwait loop + ENOSYS polling loop -> Nstd/Generated/SyncSemPoll.lean: ", translate_poll())]
     if ctx is not None:
-        ctx.cov["translated"] = ("deadline arithmetic of the timed waits -> Nstd/Generated/SyncDeadline.lean: " + msg +
-                                 "; order of Monitor::set -> Nstd/Generated/SyncMonitorOrder.lean: " + msg2)
-    return ok and ok2, "; ".join(m for o, m in ((ok, msg), (ok2, msg2)) if not o)
+        ctx.cov["translated"] = "; ".join(h + m for h, (o, m) in parts)
+    return all(o for _, (o, _) in parts), "; ".join(m for _, (o, m) in parts if not o)
 
 
 def setup():
-    for ok, msg in (translate(), translate_order()):
+    for ok, msg in (translate(), translate_order(), translate_poll()):
         if not ok:
             print("sync translate:", msg)
 
@@ -461,6 +534,10 @@ def gen_body(rng, prim, budget):
     elif prim == "sem":
         for _ in range(rng.choice([1, 2, 2, 3])):
             blocks.append([rng.choice(["signal", "signal", "wait", "wait", f"twait-{tmo()}", "trywait"])])
+    elif prim == "semN":        # scenarios in which sem_timedwait may report ENOSYS: time-outs around the 10 ms poll step
+        for _ in range(rng.choice([1, 2, 2, 3])):
+            blocks.append([rng.choice(["signal", "signal", "wait", f"twait-{rng.choice([0, 1, 9, 10, 11, 20, 25, 30])}",
+                                       f"twait-{rng.choice([0, 1, 9, 10, 11, 20, 25, 30])}", "trywait"])])
     elif prim == "sig":
         for _ in range(rng.choice([1, 1, 2, 3])):
             blocks.append([rng.choice(["set", "set", "reset", "wait", "wait", f"twait-{tmo()}"])])
@@ -506,10 +583,11 @@ def gen_destroy_scen(rng):
 def gen_scen(rng, prim=None):
     if prim is None and rng.random() < 0.06:
         return gen_destroy_scen(rng)
-    prim = prim or rng.choice(["mtx", "sem", "sig", "sig", "mon", "mon", "thr"])
+    prim = prim or rng.choice(["mtx", "sem", "sem", "sig", "sig", "mon", "mon", "thr"])
     k = rng.choice([1, 2, 2, 3])                      # worker threads; 2..4 threads in total
     rets = [rng.choice([0, 1, 7, 2147483648, 4294967295, rng.randrange(2 ** 32)]) for _ in range(k + 1)]
-    workers = [gen_body(rng, prim, 8) for _ in range(k)]
+    enosys = rng.choice([1, 1, 2, 3]) if prim == "sem" and rng.random() < 0.4 else 0
+    workers = [gen_body(rng, "semN" if enosys else prim, 8) for _ in range(k)]
     main = [f"{rng.choice(['start', 'mstart'])}-{j}" for j in range(1, k + 1)]
     if prim != "thr" and rng.random() < 0.5:
         main += gen_body(rng, prim, 4)
@@ -534,7 +612,9 @@ def gen_scen(rng, prim=None):
     progs = [(rets[0], main)] + [(rets[i + 1], workers[i]) for i in range(k)]
     tmos = [int(o.split("-")[1]) for _, ops in progs for o in ops if o.startswith(("twait-", "gtwait-"))]
     mx = max(tmos) if tmos else 0
-    if mx > 0:
+    if enosys:                  # the poll loop sleeps 10 ms per iteration
+        quantum = rng.choice([10000000, 10000000, 5000000, 9999999, 3333334, 20000000])
+    elif mx > 0:
         quantum = rng.choice([mx * 1000000, mx * 1000000 // 2, mx * 1000000 - 1, mx * 1000000 // 2 + 1, mx * 1000000 // 3 + 1])
     else:
         quantum = rng.choice([1, 1000000])
@@ -548,7 +628,7 @@ def gen_scen(rng, prim=None):
     cfail = rng.choice([0, 0, 0, 1, 2]) if prim == "thr" else rng.choice([0] * 9 + [1])
     if any(o.startswith("xstart-") for o in main):
         cfail = 0                                   # xstart is only defined on an attached object
-    return Scen(prim, init, rng.choice([0, 5, 1700000000]), nsec, quantum, rng.choice([0, 1, 1, 2]), rng.choice([0, 1, 2]), progs, cfail)
+    return Scen(prim, init, rng.choice([0, 5, 1700000000]), nsec, quantum, rng.choice([0, 1, 1, 2]), rng.choice([0, 1, 2]), progs, cfail, enosys)
 
 
 # ---- trace parsing ----------------------------------------------------------------------------------
@@ -587,11 +667,13 @@ def sched_str(choices):
 
 # ---- the independent reference: the contracts of C11 evaluated on the implementation's trace ----------
 class Call:
-    __slots__ = ("t", "k", "op", "arg", "b", "e", "val", "tb", "te")
+    __slots__ = ("t", "k", "op", "arg", "b", "e", "val", "tb", "te", "enosys", "taken")
 
     def __init__(self, t, k, op, arg, b, tb):
         self.t, self.k, self.op, self.arg, self.b, self.tb = t, k, op, arg, b, tb
         self.e, self.val, self.te = None, None, None
+        self.enosys = False            # sem_timedwait of this call reported ENOSYS: the call is in the polling fallback
+        self.taken = 0                 # units this call took from the semaphore
 
 
 def split_op(o):
@@ -762,6 +844,8 @@ def contracts(sc, tr):
             bump("Thread::sleep returned")
             if c.te < c.tb + c.arg * 1000000:
                 errs.append(f"Thread::sleep({c.arg}) of thread {t} returned at virtual time {c.te} < call time {c.tb} + {c.arg} ms")
+        if op == "twait" and c.enosys:
+            bump(f"polling fallback: wait(timeout) returned {v}" + (" with time-out 0" if c.arg == 0 else ""))
         if op == "twait" and v == "0":
             if c.te < c.tb + c.arg * 1000000:
                 errs.append(f"timed wait of thread {t} (op {c.k}, {c.arg} ms) returned false at virtual time {c.te} < call time {c.tb} + time-out")
@@ -799,6 +883,11 @@ def contracts(sc, tr):
             continue
         if a > 0:
             bump("alternative >= 1 taken (time-out / EINTR / n-th waiter signalled)")
+        if a == 3 and sc.prim == "sem" and t < n and cur[t] is not None and cur[t].op == "twait":
+            cur[t].enosys = True
+            bump("sem_timedwait reported ENOSYS (polling fallback entered)")
+        elif sc.prim == "sem" and t < n and cur[t] is not None and cur[t].enosys and not evs:
+            bump("polling fallback: step that stays in the call (sem_trywait failed / usleep returned)")
         if t >= n:
             errs.append(f"unknown thread {t}")
             break
@@ -1014,64 +1103,6 @@ def monitor_destroy_whatif(ctx, harness):
             "; ".join(f"{k}: {v['touch the destroyed condition variable']}/{v['schedules']} schedules" for k, v in res.items()))
 
 
-ENOSYS_SCENARIOS = [
-    # Semaphore::wait(timeout) when sem_timedwait reports ENOSYS: `for(i = 0; i < timeout; i += 10) { if(sem_trywait) return true; usleep(10 ms); }`
-    "scen sem 0 5 995000000 5000000 0 1 N:2 T:0:start-1,start-2,signal,join-1,join-2 T:1:twait-25 T:2:twait-0,twait-10",
-    "scen sem 1 5 0 10000000 0 0 N:3 T:0:start-1,start-2,join-1,join-2 T:1:twait-20,twait-15 T:2:twait-1,signal",
-    "scen sem 0 1700000000 999999999 3000000 0 2 N:1 T:0:start-1,signal,join-1,trywait T:1:twait-1001",
-]
-
-
-def enosys_pass(ctx, harness):
-    """TIE ONLY (the fallback is not in the Lean model): the ENOSYS branch of Semaphore::wait(timeout) - the polling loop over
-    sem_trywait + usleep(10 ms) - is executed on the implementation over the simulated POSIX layer (sem_timedwait alternative 3,
-    usleep = sleep on the virtual clock), all schedules with <= 1 (quick) / <= 2 (thorough) deviations from the default policy + random schedules, and
-    the contracts of the property (conservation, false only after call + time-out in virtual time, nobody stuck) are
-    evaluated on every trace by the reference."""
-    res = {"runs": 0, "ENOSYS alternatives taken": 0, "twait=1": 0, "twait=0": 0, "complaints": 0}
-    quick = ctx.tier == "quick"
-    for line in ENOSYS_SCENARIOS:
-        sc = Scen.parse(line)
-        pending, wave, done = [()], 0, 0
-        cap = 400 if quick else 3000
-        seeds = [ctx.rng.randrange(1, 2 ** 63) for _ in range(100 if quick else 800)]
-        while (pending or seeds) and done < cap:
-            runs = [f"run {sched_str(p)}" for p in pending[:cap - done]] + [f"rrun {x} -" for x in seeds]
-            npend = len(runs) - len(seeds)
-            seeds = []
-            out, rc, err = C.run_lines(harness, ["reset", line] + runs, timeout=300)
-            new = []
-            for k, (cmd, o) in enumerate(zip(runs, out[2:])):
-                tr = Trace(o)
-                done += 1
-                res["runs"] += 1
-                msg = contracts(sc, tr)
-                if tr.ok:
-                    res["ENOSYS alternatives taken"] += sum(1 for t, a, _, _ in tr.steps if a == 3)
-                    if k < npend and wave < (1 if quick else 2):
-                        p = pending[k]
-                        ch = tr.choices()
-                        for pos in range(len(p), min(len(tr.steps), 400)):
-                            t, a, cands, _ = tr.steps[pos]
-                            new += [tuple(ch[:pos]) + (c,) for c in cands if c != (t, a)]
-                elif msg is None:
-                    msg = "no trace: " + o[:120]
-                if msg:
-                    res["complaints"] += 1
-                    if res["complaints"] <= 3:
-                        ctx.violation(f"ENOSYS fallback of Semaphore::wait(timeout) (implementation-only run): {msg}",
-                                      "# implementation-only run (the ENOSYS fallback is not in the Lean model)\n# " + msg + "\nreset\n" + line + "\n" + cmd + "\n# -> " + o[:2000] + "\n",
-                                      signature="enosys-fallback")
-            wave += 1
-            pending = new
-    res["twait=1"] = STATS.get("sem.twait=1", 0)
-    res["twait=0"] = STATS.get("sem.twait=0", 0)
-    ctx.cov["enosys_fallback_impl_only"] = res
-    ctx.log(f"ENOSYS fallback of Semaphore::wait(timeout), implementation only: {res['runs']} runs, {res['ENOSYS alternatives taken']} ENOSYS returns, {res['complaints']} complaint(s)")
-    if res["ENOSYS alternatives taken"] == 0:
-        ctx.broken.append("the ENOSYS fallback of Semaphore::wait(timeout) was never reached by the implementation-only pass")
-
-
 def stress(ctx):
     """uncontrolled run on real pthreads — a TEST guarding the shim, not part of the proof-level claim"""
     srcs = ["sync_stress.cpp"] + [C.REPO / "src" / f"{n}.cpp" for n in LIB_SOURCES]
@@ -1115,6 +1146,11 @@ FIXED_SCENARIOS = [
     # Mutex::Guard / Monitor::Guard (nested; Guard::wait both forms), Thread::getCurrentThreadId / yield
     "scen mtx 0 0 0 1 0 0 T:0:start-1,mstart-2,tid,join-1,join-2 T:1:glock,glock,tid,gunlock,gunlock T:2:yield,try-2,glock,gunlock,unlock",
     "scen mon 0 5 999000000 1500000 1 0 T:0:start-1,start-2,yield,join-1,join-2 T:1:glock,gwait,gtwait-2,gunlock T:2:set,tid,set",
+    # the ENOSYS polling fallback of Semaphore::wait(timeout): for(i = 0; i < timeout; i += 10) { sem_trywait; usleep(10 ms) }
+    "scen sem 0 5 995000000 5000000 0 1 N:2 T:0:start-1,start-2,signal,join-1,join-2 T:1:twait-25 T:2:twait-0,twait-10",
+    "scen sem 1 5 0 10000000 0 0 N:3 T:0:start-1,start-2,join-1,join-2 T:1:twait-20,twait-15 T:2:twait-1,signal",
+    "scen sem 0 1700000000 999999999 3000000 0 2 N:1 T:0:start-1,signal,join-1,trywait T:1:twait-1001",
+    "scen sem 2 5 0 10000000 0 0 N:2 T:0:start-1,twait-0,join-1 T:1:twait-11,twait-0",
     # Thread::sleep on the virtual clock: usleep(ms * 1000) returns only after the clock has advanced by ms
     "scen thr 0 5 999999000 400000 0 0 T:0:start-1,sleep-1,join-1,sleep-0 T:3:sleep-2",
     "scen sig 0 5 0 1000000 1 0 T:0:start-1,start-2,join-1,join-2 T:1:sleep-2,set T:2:twait-1,sleep-1,wait",
@@ -1214,8 +1250,14 @@ def check(ctx):
             C.report_diffs(ctx, ex.diffs, harness, driver, reference, C.default_eq, "sync-schedules")
         # 4. information: the Monitor::set() shape (see docs/sync.md)
         monitor_destroy_whatif(ctx, harness)
-        # 4b. tie only: the ENOSYS fallback of Semaphore::wait(timeout)
-        enosys_pass(ctx, harness)
+        # 4b. the ENOSYS fallback of Semaphore::wait(timeout) must have been driven (both sides): entered, true, false, time-out 0
+        need = ["sem_timedwait reported ENOSYS (polling fallback entered)", "polling fallback: wait(timeout) returned 1",
+                "polling fallback: wait(timeout) returned 0", "polling fallback: wait(timeout) returned 0 with time-out 0",
+                "polling fallback: step that stays in the call (sem_trywait failed / usleep returned)"]
+        miss = [k for k in need if not STATS.get(k)]
+        ctx.log("ENOSYS polling fallback: " + ", ".join(f"{STATS.get(k, 0)} x {k}" for k in need))
+        if miss:
+            ctx.broken.append("the ENOSYS fallback of Semaphore::wait(timeout) was not covered by the correspondence run: " + "; ".join(miss))
         # 5. the test on real pthreads
         stress(ctx)
     finally:
